@@ -14,7 +14,7 @@
 (*                "y<i>": { "$id": decoy_i, "type": "string" } } }           *)
 (* and requires: an integer instance is valid, a string instance is not.     *)
 EXTENDS Uri, Json, TLC, FiniteSets
-CONSTANTS MaxSegs, Nested
+CONSTANTS MaxSegs, Nested, PtrMode
 VARIABLES base, inner, ref, phase
 
 Http == <<104,116,116,112,58,47,47,104>>   \* http://h
@@ -39,9 +39,32 @@ InnerIds == { <<>>, <<G>>, <<G,Slash>>, <<Dot,Dot,Slash,G>>, <<Slash,G,Slash,C>>
 WellFormedRef(r) == LET s == Split(r) IN
   /\ (IsDef(s.authority) => Chars(s.authority) \in {<<G>>, <<104>>})          \* network-path references name the host g ("///", "//.", "//.." are not http identifiers)
   /\ ~(~IsDef(s.scheme) /\ ~IsDef(s.authority) /\ StartsWith(s.path, <<Slash,Slash>>))
+  \* network-path references are not supported by the pinned tree at all (known finding): the class is kept to plain paths, since a
+  \* mis-resolved "//g/../.." can come out as the enclosing schema itself, a reference cycle that only overflows the stack
+  /\ ((~IsDef(s.scheme) /\ IsDef(s.authority)) => RemoveDotSegments(s.path) = s.path /\ \A i \in 1..Len(s.path) : s.path[i] # Dot)
 
-Init == /\ phase = 0 /\ base \in Bases /\ inner = <<>> /\ ref = <<>>
-Next == /\ phase = 0 /\ phase' = 1 /\ base' = base
+SetToSeq(S) == CHOOSE f \in [1..Cardinality(S) -> S] : \A i, j \in 1..Cardinality(S) : i # j => f[i] # f[j]
+\* ---- (ptr) references by JSON Pointer fragment: "#/<defs>/<token>", the token addressing a member whose name needs "~" escapes and
+\* percent-encoding (RFC 6901 section 6); decoys are the members literally named like the encoded forms
+PtrKeys == { <<97>>, <<97,32,98>>, <<97,47,98>>, <<97,126,98>>, <<97,37,98>>, <<97,37,50,53,98>>, <<233>>, <<8364>>, <<126,48>>, <<126,49>>, <<37,55,69>>,
+             <<97,34,98>>, <<97,94,98>>, <<97,124,98>>, <<97,60,98>>, <<97,92,98>>, <<97,96,98>>, <<97,123,125>>, <<47>>, <<126>>, <<37>>, <<97,63,98>>, <<97,35,98>>,
+             <<97,58,64,98>>, <<43>>, <<128512>>, <<97,126,49,98>>, <<97,37,50,48,98>> }
+\* cls "ptr": the token is encoded only where RFC 3986 requires it (upper- or lower-case hex digits, equivalent by 2.1), the member
+\* name holds no literal percent triplet, and no member is literally named like the encoded token.
+\* cls "ptrx": the remaining combinations - everything that is not unreserved is encoded (all), members literally named like the
+\* encoded token are present (lit), or the member name itself contains a percent triplet.
+HexCp(c) == (c >= 48 /\ c <= 57) \/ (c >= 65 /\ c <= 70) \/ (c >= 97 /\ c <= 102)
+HasTriplet(k) == \E i \in 1..Len(k) : k[i] = 37 /\ i + 2 <= Len(k) /\ HexCp(k[i + 1]) /\ HexCp(k[i + 2])
+PtrCase(k, all, upper, lit) ==
+  LET tok == FragmentToken(k, all, upper)
+      dec == ({ PtrEscape(k) } \cup (IF k = <<97,32,98>> THEN {<<97,43,98>>} ELSE {}) \cup (IF lit THEN { tok, PctEncode(k, all, upper) } ELSE {})) \ {k}
+  IN [cls |-> IF lit \/ all \/ HasTriplet(k) THEN "ptrx" ELSE "ptr", base |-> Http \o <<Slash,A>>, key |-> k, tok |-> tok, decoys |-> SetToSeq(dec),
+      all |-> all, upper |-> upper, lit |-> lit]
+PtrCases == { PtrCase(k, all, upper, FALSE) : k \in PtrKeys, all \in BOOLEAN, upper \in BOOLEAN }
+            \cup { PtrCase(k, all, upper, TRUE) : k \in { x \in PtrKeys : \E a \in BOOLEAN : FragmentToken(x, a, TRUE) # PtrEscape(x) }, all \in BOOLEAN, upper \in BOOLEAN }
+
+Init == /\ phase = 0 /\ base \in (IF PtrMode THEN {<<>>} ELSE Bases) /\ inner = <<>> /\ ref = <<>>
+Next == /\ ~PtrMode /\ phase = 0 /\ phase' = 1 /\ base' = base
         /\ inner' \in (IF Nested THEN InnerIds ELSE {<<>>})
         /\ ref' \in { r \in RelRefs(MaxSegs) \cup AbsRefs(MaxSegs) : WellFormedRef(r) }
 
@@ -64,8 +87,8 @@ Decoys ==
 \* a reference to an enclosing schema would recurse without consuming the instance (undefined); not generated
 Applicable == SlashPath(Tgt) # SlashPath(Target(base, <<>>)) /\ SlashPath(Tgt) # SlashPath(InnerBase)
 
-SetToSeq(S) == CHOOSE f \in [1..Cardinality(S) -> S] : \A i, j \in 1..Cardinality(S) : i # j => f[i] # f[j]
 Case == [base |-> base, inner |-> inner, ref |-> ref, target |-> Tgt, decoys |-> SetToSeq(Decoys),
          cls |-> LET s == Split(ref) IN IF IsDef(s.scheme) THEN "abs" ELSE IF IsDef(s.authority) THEN "net" ELSE "rel"]
-Emit == (phase = 1 /\ Applicable) => PrintT(ToJson(Case))
+Emit == IF PtrMode THEN (phase = 0 => \A pc \in PtrCases : PrintT(ToJson(pc)))
+        ELSE ((phase = 1 /\ Applicable) => PrintT(ToJson(Case)))
 =============================================================================
